@@ -89,14 +89,6 @@ Definition vop2 (f : K -> K -> K) (a b : value) : res :=
   | V l1, V l2 => if Nat.eqb (length l1) (length l2) then Ok (V (zipw f l1 l2)) else ShapeErr
   end.
 
-(* wrap_mathfunc with two arguments: either no array, or all arrays of the same length *)
-Definition vfn2 (f : K -> K -> K) (a b : value) : res :=
-  match a, b with
-  | S x, S y => Ok (S (f x y))
-  | V l1, V l2 => if Nat.eqb (length l1) (length l2) then Ok (V (zipw f l1 l2)) else ShapeErr
-  | _, _ => ShapeErr
-  end.
-
 (* ParameterError dominates: the implementation evaluates every atom before computing anything *)
 Definition lift1 (f : value -> res) (r : res) : res :=
   match r with
@@ -140,10 +132,43 @@ Fixpoint ev (e : expr) : res :=
   | Div a b => lift2 (vop2 kdiv) (ev a) (ev b)
   | Pow a n => lift1 (fun v => Ok (vmap (fun x => kpow x n) v)) (ev a)
   | Fn1 f a => lift1 (fun v => Ok (vmap (fn1 f) v)) (ev a)
-  | Fn2 f a b => lift2 (vfn2 (fn2 f)) (ev a) (ev b)
+  | Fn2 f a b => lift2 (vop2 (fn2 f)) (ev a) (ev b)
   | Arr es => collect (map ev es)
   end.
 End Eval.
+
+(* What is known about the shape of a parameter when the expression is *built*: numpy broadcasts
+   array nodes / array constants at construction and wrap_mathfunc insists that the arguments of a
+   multi-argument function are either all arrays of one length or all scalars; symbols count as scalars.
+   None = the construction raises ValueError (or builds a nested array, which is not modelled). *)
+Inductive shp := Sc | Ar (n : nat).
+
+Definition shp_bin (a b : option shp) : option shp :=
+  match a, b with
+  | Some Sc, Some s => Some s
+  | Some s, Some Sc => Some s
+  | Some (Ar n), Some (Ar m) => if Nat.eqb n m then Some (Ar n) else None
+  | _, _ => None
+  end.
+
+Definition shp_fn2 (a b : option shp) : option shp :=
+  match a, b with
+  | Some Sc, Some Sc => Some Sc
+  | Some (Ar n), Some (Ar m) => if Nat.eqb n m then Some (Ar n) else None
+  | _, _ => None
+  end.
+
+Fixpoint sshape (e : expr) : option shp :=
+  match e with
+  | Const (S _) => Some Sc
+  | Const (V l) => Some (Ar (length l))
+  | Free _ | Meas _ => Some Sc
+  | Neg a | Pow a _ | Fn1 _ a => sshape a
+  | Add a b | Mul a b | Div a b => shp_bin (sshape a) (sshape b)
+  | Fn2 _ a b => shp_fn2 (sshape a) (sshape b)
+  | Arr es => if forallb (fun x => match sshape x with Some Sc => true | _ => false end) es
+              then Some (Ar (length es)) else None
+  end.
 
 (* atoms *)
 Inductive atom := AFree (n : nat) | AMeas (k : nat).
